@@ -9,7 +9,9 @@ use serde_json::{json, Value};
 
 fn attack<S: ShortGroupSignatureScheme>(em: &mut Emitter, suite: &str, name: &str, scn: &Scn<S>, p: &Presentation<S>) {
     em.oracle_case(&format!("{} {} {}", suite, name, scn.mix.describe()));
-    let v = scn.verify(p);
+    // model: the plan stage of `verify` on the structure of this object vs "did the real verifier reach the challenge"
+    let (class, v) = plan_class(p, &scn.schema, &scn.nonce);
+    em.op(plan_line(&scn.schema, p, suite), class);
     em.count(&format!("{}:{}", name.split(' ').next().unwrap(), v.class()));
     match v {
         Out::Ok(_) => em.violation(
